@@ -1657,4 +1657,121 @@ theorem bfTree_of_wfTree : ∀ t, wfTree t = true → bfTree t = true := by
       simp only [bfTreeL, Bool.and_eq_true]
       exact ⟨ihl c (List.mem_cons_self ..) hwl.1, ihc (fun x hx => ihl x (List.mem_cons_of_mem _ hx)) hwl.2⟩
 
+
+/-! ### the printer is injective on well-formed expressions of the typing spelling -/
+
+theorem append_bracket_inj : ∀ (h h' r r' : Str), '[' ∉ h → '[' ∉ h' → h ++ '[' :: r = h' ++ '[' :: r' → h = h' ∧ r = r' := by
+  intro h
+  induction h with
+  | nil =>
+    intro h' r r' _ hh' he
+    cases h' with
+    | nil => simp at he; exact ⟨rfl, he⟩
+    | cons c cs => simp at he; exact absurd (he.1 ▸ List.mem_cons_self ..) hh'
+  | cons a l ih =>
+    intro h' r r' hh hh' he
+    cases h' with
+    | nil => simp at he; exact absurd (he.1 ▸ List.mem_cons_self ..) hh
+    | cons c cs =>
+      simp only [List.cons_append, List.cons.injEq] at he
+      obtain ⟨rfl, he⟩ := he
+      obtain ⟨h1, h2⟩ := ih cs r r' (fun hm => hh (List.mem_cons_of_mem _ hm)) (fun hm => hh' (List.mem_cons_of_mem _ hm)) he
+      exact ⟨by rw [h1], h2⟩
+
+theorem segsOf_inj : ∀ (ps ps' : List Str) (cur : Str), (∀ p ∈ ps, p ≠ []) → (∀ p ∈ ps', p ≠ []) →
+    (ps = [] → cur = []) → (ps' = [] → cur = []) →
+    segsOf cur ps = segsOf cur ps' → ps = ps' := by
+  intro ps
+  induction ps with
+  | nil =>
+    intro ps' cur _ hne' hc _ he
+    cases ps' with
+    | nil => rfl
+    | cons p r =>
+      have hcur := hc rfl
+      subst hcur
+      cases r with
+      | nil => simp [segsOf] at he; exact absurd he (hne' p (by simp))
+      | cons q r' => cases r' <;> simp [segsOf] at he
+  | cons p ps ih =>
+    intro ps' cur hne hne' _ hc' he
+    cases ps' with
+    | nil =>
+      have hcur := hc' rfl
+      subst hcur
+      cases ps with
+      | nil => simp [segsOf] at he; exact absurd he (hne p (by simp))
+      | cons q r => cases r <;> simp [segsOf] at he
+    | cons p' ps' =>
+      cases ps with
+      | nil =>
+        cases ps' with
+        | nil => simp [segsOf] at he; rw [he]
+        | cons q' r' => cases r' <;> simp [segsOf] at he
+      | cons q r =>
+        cases ps' with
+        | nil => cases r <;> simp [segsOf] at he
+        | cons q' r' =>
+          simp only [segsOf, List.cons.injEq, List.append_cancel_left_eq] at he
+          obtain ⟨rfl, he⟩ := he
+          have := ih (q' :: r') [' '] (fun x hx => hne x (List.mem_cons_of_mem _ hx))
+            (fun x hx => hne' x (List.mem_cons_of_mem _ hx)) (by intro h; cases h) (by intro h; cases h) he
+          rw [this]
+
+theorem joinSep_comma_inj (ps ps' : List Str) (h0 : ∀ p ∈ ps, scanTop 0 p = some 0) (h0' : ∀ p ∈ ps', scanTop 0 p = some 0)
+    (hne : ∀ p ∈ ps, p ≠ []) (hne' : ∀ p ∈ ps', p ≠ []) (he : joinSep sComma ps = joinSep sComma ps') : ps = ps' := by
+  have h1 := splitTop_join ps [] h0
+  have h2 := splitTop_join ps' [] h0'
+  rw [he, h2] at h1
+  exact (segsOf_inj ps' ps [] hne' hne (fun _ => rfl) (fun _ => rfl) h1).symm
+
+theorem print_inj : ∀ e, wfU e = true → ∀ e', wfU e' = true → print e = print e' → e = e' := by
+  apply TExpr.ind
+  · intro s hs e' he' hp
+    cases e' with
+    | atom s' => rw [print_atom, print_atom] at hp; rw [hp]
+    | app h' args' =>
+      rw [print_atom, print_app] at hp
+      simp only [wfU] at hs
+      exact absurd (hp ▸ (by simp : '[' ∈ h' ++ '[' :: (printL Dcg.Sem.Typing.sComma args' ++ [']']))) (plain_no_bracket s (plainTok_parts s hs).2.1)
+    | bor a => simp [wfU] at he'
+  · intro h args ih hw e' he' hp
+    cases e' with
+    | atom s' =>
+      rw [print_atom, print_app] at hp
+      simp only [wfU] at he'
+      exact absurd (hp.symm ▸ (by simp : '[' ∈ h ++ '[' :: (printL Dcg.Sem.Typing.sComma args ++ [']']))) (plain_no_bracket s' (plainTok_parts s' he').2.1)
+    | bor a => simp [wfU] at he'
+    | app h' args' =>
+      rw [print_app, print_app] at hp
+      simp only [wfU, Bool.and_eq_true] at hw he'
+      obtain ⟨hh, hr⟩ := append_bracket_inj h h' _ _ (plain_no_bracket h (plainTok_parts h hw.1.1).2.1)
+        (plain_no_bracket h' (plainTok_parts h' he'.1.1).2.1) hp
+      subst hh
+      have hJ : printL Dcg.Sem.Typing.sComma args = printL Dcg.Sem.Typing.sComma args' := List.append_cancel_right hr
+      rw [printL_eq_joinSep, printL_eq_joinSep] at hJ
+      have hm := wfUL_mem hw.2
+      have hm' := wfUL_mem he'.2
+      have hmaps : args.map print = args'.map print := by
+        apply joinSep_comma_inj _ _ _ _ _ _ hJ
+        · intro p hp; simp only [List.mem_map] at hp; obtain ⟨a, ha, rfl⟩ := hp; exact scanTop_print_wfU a (hm a ha) 0
+        · intro p hp; simp only [List.mem_map] at hp; obtain ⟨a, ha, rfl⟩ := hp; exact scanTop_print_wfU a (hm' a ha) 0
+        · intro p hp; simp only [List.mem_map] at hp; obtain ⟨a, ha, rfl⟩ := hp; exact print_ne_nil_of_wfU a (hm a ha)
+        · intro p hp; simp only [List.mem_map] at hp; obtain ⟨a, ha, rfl⟩ := hp; exact print_ne_nil_of_wfU a (hm' a ha)
+      congr 1
+      clear hw he' hp hr hJ
+      induction args generalizing args' with
+      | nil => cases args' with
+        | nil => rfl
+        | cons _ _ => simp at hmaps
+      | cons a l ihl =>
+        cases args' with
+        | nil => simp at hmaps
+        | cons a' l' =>
+          simp only [List.map_cons, List.cons.injEq] at hmaps
+          rw [ih a (List.mem_cons_self ..) (hm a (List.mem_cons_self ..)) a' (hm' a' (List.mem_cons_self ..)) hmaps.1]
+          rw [ihl (fun x hx => ih x (List.mem_cons_of_mem _ hx)) l' (fun x hx => hm x (List.mem_cons_of_mem _ hx))
+            (fun x hx => hm' x (List.mem_cons_of_mem _ hx)) hmaps.2]
+  · intro args _ hw; simp [wfU] at hw
+
 end Dcg.Proofs.Types
